@@ -214,6 +214,28 @@ class Driver:
 # verdicts
 
 
+def _strict(o):
+    """strict JSON has no NaN / Infinity: non-finite floats are written as strings"""
+    if isinstance(o, float):
+        return o if o == o and o not in (float("inf"), float("-inf")) else str(o)
+    if isinstance(o, dict):
+        return {(k if isinstance(k, (str, int, float, bool)) or k is None else str(k)): _strict(v) for k, v in o.items()}
+    if isinstance(o, (list, tuple)):
+        return [_strict(v) for v in o]
+    try:
+        import numpy as _np
+
+        if isinstance(o, _np.floating):
+            return _strict(float(o))
+        if isinstance(o, _np.integer):
+            return int(o)
+        if isinstance(o, _np.ndarray):
+            return _strict(o.tolist())
+    except Exception:  # noqa
+        pass
+    return o
+
+
 class Check:
     """Accumulates what one run of one property's check did, and turns it into evidence + exit code."""
 
@@ -329,7 +351,7 @@ class Check:
             violations=len(self.failing_inputs) + (1 if self.broken and not self.failing_inputs else 0),
             notes=self.notes,
         )
-        (EVID / f"{self.pid}.json").write_text(json.dumps(ev, indent=1, default=str))
+        (EVID / f"{self.pid}.json").write_text(json.dumps(_strict(ev), indent=1, default=str, allow_nan=False))
         for k in self.known_hit:
             print(f"KNOWN-FINDING: property={self.pid} {k['what']}")
         if violation:
